@@ -14,6 +14,7 @@ import SymfcModel.Model.Coset
 import SymfcModel.Model.Solver
 import SymfcModel.Model.Api
 import SymfcModel.Model.Eig
+import SymfcModel.Model.SgPerm
 import SymfcModel.Gen.PermTables
 import SymfcModel.Gen.Cutoff
 import SymfcModel.Gen.Solver
@@ -351,6 +352,20 @@ def handle (j : Json) : Except String Json := do
   | "eig_consts" =>
     let p ← jNat j "p_size"
     pure (natsJ [Gen.eigSizeThreshold, targetSize Gen.eigTargetDiv Gen.eigTargetLo Gen.eigTargetHi p])
+  | "fast_trans_perm" =>
+    let S ← jInt j "S"
+    let ps ← (← (← j.getObjVal? "positions").getArr?).toList.mapM jIntList
+    let ts ← (← (← j.getObjVal? "translations").getArr?).toList.mapM jIntList
+    pure (Json.mkObj [
+      ("distinct", Json.bool (positionsDistinct S ps)),
+      ("sorted_ids", natsJ (argsortPos S ps)),
+      ("perms", Json.arr (ts.map (fun t => match fastTransPerm S ps t with
+        | some tp => natsJ tp
+        | none => Json.null)).toArray)])
+  | "compose_out" =>
+    let tp ← jNatList (← j.getObjVal? "tp")
+    let perm ← jNatList (← j.getObjVal? "perm")
+    pure (natsJ (composeOut tp perm))
   | "round_half_even" =>
     let t ← jInt j "t"; let den ← jInt j "den"
     pure (Json.num (JsonNumber.fromInt (roundHalfEven t den)))
